@@ -53,6 +53,8 @@ pub struct World {
     pub obs: Vec<String>,
     pub life: u32,
     pub fault_read: bool,        // a read fault was injected (known-finding territory)
+    pub lost_write: bool,        // an acknowledged write was dropped (C09's quantifier only)
+    pub fault_kind: String,      // which read was made to fail last: `dl` or `wait`
     pub height: u32,
     pub model_wall: u64,         // what the trace has told the model about the wall clock
     pub stamp: BTreeMap<String, (u64, u64)>, // aid -> (real stored secs as currently in the node, model wall at write)
@@ -74,7 +76,7 @@ impl World {
         { let mut n = node.lock().unwrap(); n.height = 1000; n.node_id = pubkey(LOCAL).to_string(); }
         World { node, hash_hex: hash.to_string(), hash: hash.to_byte_array().to_vec(),
             inv_fixed: make_invoice(&pre, Some(1_000_000), 0, 2), inv_open: make_invoice(&pre, None, 0, 2), open, inv_amount: 1_000_000, cfg,
-            calls: vec![], aids: vec![], acts: vec![], obs: vec![], life: 0, fault_read: false, height: 1000, model_wall: 0, stamp: BTreeMap::new(), mono: 0, wait_started: None, next_part: 1, restart_aid: None, init_snap: None }
+            calls: vec![], aids: vec![], acts: vec![], obs: vec![], life: 0, fault_read: false, lost_write: false, fault_kind: String::new(), height: 1000, model_wall: 0, stamp: BTreeMap::new(), mono: 0, wait_started: None, next_part: 1, restart_aid: None, init_snap: None }
     }
     fn aid_canon(&mut self, aid: &str) -> usize {
         if let Some(p) = self.aids.iter().position(|a| a == aid) { return p + 1; }
@@ -243,6 +245,8 @@ fn oracle_pay(w: &World, ctx: &mut Ctx, amount: Option<u64>, maxfee: u64, maxdel
     let (minexp, height) = w.init_snap.map(|(e, h)| (e, h as u64)).unwrap_or((h.iter().map(|c| c.expiry as u64).min().unwrap_or(0), w.height as u64));
     let bound = minexp.saturating_sub(height).saturating_sub(w.cfg.cltv_delta as u64);
     if maxdelay > bound || maxdelay > w.cfg.policy_delta as u64 { ctx.violation("C04", "pay-maxdelay", &format!("maxdelay {} > min(expiry {} - height {} - delta {}, policy {}) REPLAY[{}]", maxdelay, minexp, height, w.cfg.cltv_delta, w.cfg.policy_delta, replay(w))); }
+    // C05 and C08 do not quantify over read faults or lost (acknowledged but dropped) writes
+    if w.fault_read || w.lost_write { return; }
     let n = w.node.lock().unwrap();
     if !n.quiet(&w.hash_hex) { ctx.violation("C05", "pay-while-live", &format!("pay issued while parts {:?} / pay running {:?} REPLAY[{}]", n.parts_of(&w.hash_hex), n.pay_running.get(&w.hash_hex), replay(w))); }
     drop(n);
@@ -258,23 +262,24 @@ fn oracle_step(w: &World, ctx: &mut Ctx, resps: &[(u64, String)], _act: &str) {
             let ok_hash = k.parse::<u64>().ok().map(|n| sha256::Hash::hash(&node::preimage_bytes(n)).to_byte_array().to_vec() == w.calls[*id as usize].hash).unwrap_or(false);
             let from_part = k.parse::<u64>().ok().map(|n| parts.iter().any(|p| p.st == PSt::Complete(n))).unwrap_or(false);
             if !ok_hash || !from_part { ctx.violation("C01", "resolve-bad-key", &format!("htlc {} resolved with {} (hash ok: {}, completed part: {}) REPLAY[{}]", id, k, ok_hash, from_part, replay(w))); }
-        } else if r.starts_with("fail:") && !quiet {
-            let sig = if w.fault_read { "fail-while-live:after-read-fault" } else { "fail-while-live" };
-            ctx.violation("C02", sig, &format!("htlc {} failed with {} while parts are {:?} REPLAY[{}]", id, r, parts, replay(w)));
+        } else if r.starts_with("fail:") && !quiet && !w.lost_write {
+            let code = r.trim_start_matches("fail:").chars().take(4).collect::<String>();
+            let sig = if w.fault_read { format!("fail-while-live:read-fault:{}:{}", w.fault_kind, code) } else { "fail-while-live".to_string() };
+            ctx.violation("C02", &sig, &format!("htlc {} failed with {} while parts are {:?} REPLAY[{}]", id, r, parts, replay(w)));
         }
     }
     // C07: one resolution for everybody answered in the same step
     if resps.len() > 1 && resps.iter().any(|(_, r)| r != &resps[0].1) { ctx.violation("C07", "mixed-resolution", &format!("responses of one step differ: {:?} REPLAY[{}]", resps, replay(w))); }
     // C08: the durable record never understates
     let live = parts.iter().any(|p| p.st != PSt::Failed);
-    if live {
+    if live && !w.fault_read && !w.lost_write {
         match stored_state(w) {
             Some(v) if v.get("Pending").is_some() => {}
             Some(v) if v.get("Succeeded").is_some() => {
                 let pre: Vec<u8> = serde_json::from_value(v["Succeeded"]["preimage"].clone()).unwrap_or_default();
                 if sha256::Hash::hash(&pre).to_byte_array().to_vec() != w.hash { ctx.violation("C08,C01", "succeeded-bad-preimage", &format!("stored preimage does not hash to the payment hash REPLAY[{}]", replay(w))); }
             }
-            other => { let sig = if w.fault_read { "record-understates:after-read-fault" } else { "record-understates" }; ctx.violation("C08", sig, &format!("parts {:?} but the stored state is {:?} REPLAY[{}]", parts, other, replay(w))); }
+            other => { let sig = "record-understates"; ctx.violation("C08", sig, &format!("parts {:?} but the stored state is {:?} REPLAY[{}]", parts, other, replay(w))); }
         }
     }
 }
@@ -337,7 +342,8 @@ pub async fn apply(w: &mut World, p: &Plugin, rng: &mut Rng, act: &str) -> Step 
             };
             if let Some(r) = r { n.parked[*i].served = Some(r); }
             drop(n);
-            if kind == "fE" { w.fault_read = true; }
+            if kind == "fE" { w.fault_read = true; w.fault_kind = if tok.starts_with("dl") { "dl".into() } else { "wait".into() }; }
+            if kind == "fL" { w.lost_write = true; }
             if m == "listdatastore" && kind == "s" { w.restart_aid = stored_state(w).and_then(|v| v.get("Pending").and_then(|p| p["attempt_id"].as_str().map(|x| x.to_string()))); }
             // remember when a Pending marker was really written (for the wall-clock alignment)
             if m == "datastore" && (kind == "s" || kind == "fA") { if let Ok(v) = serde_json::from_str::<Value>(pr["string"].as_str().unwrap_or("")) { if let Some(pd) = v.get("Pending") { w.stamp.insert(pd["attempt_id"].as_str().unwrap_or("").to_string(), (pd["attempt_time_seconds"].as_u64().unwrap_or(0), w.model_wall)); } } }
@@ -370,6 +376,23 @@ async fn align_wall(w: &mut World, tok: &str) -> Option<String> {
 }
 
 
+/// would the parked datastore write with this token be accepted right now?
+fn would_succeed(w: &mut World, tok: &str) -> bool {
+    let toks = parked_tokens(w);
+    let n = w.node.lock().unwrap();
+    match toks.iter().find(|t| t.1 == tok) {
+        Some((i, _, _)) => {
+            let pr = &n.parked[*i].params;
+            let key: Vec<String> = serde_json::from_value(pr["key"].clone()).unwrap_or_default();
+            let cur = n.ds.get(&key).cloned();
+            match (cur, pr["mode"].as_str().unwrap_or(""), pr["generation"].as_u64()) {
+                (None, "must-replace", _) => false, (Some(_), "must-create", _) => false,
+                (Some((_, g)), _, Some(want)) => g == want, _ => true }
+        }
+        None => false,
+    }
+}
+
 pub struct Gen { pub faults_w: bool, pub faults_r: bool, pub crashes: bool, pub lost: bool, pub replay: bool, pub coop: Option<bool> }
 
 /// enabled actions of the real system, with multiplicity as weight
@@ -384,7 +407,7 @@ pub fn candidates(w: &mut World, rng: &mut Rng, g: &Gen, step: usize) -> Vec<Str
         if !waiting_on_pending { for _ in 0..4 { c.push(format!("s:{}", tok)); } }
         let is_write = tok.starts_with("ws") || tok.starts_with("wa");
         if is_write && g.faults_w && rng.coin(1, 6) { c.push(format!("fR:{}", tok)); c.push(format!("fA:{}", tok)); }
-        if is_write && g.lost && rng.coin(1, 10) { c.push(format!("fL:{}", tok)); }
+        if is_write && g.lost && rng.coin(1, 10) && would_succeed(w, tok) { c.push(format!("fL:{}", tok)); }
         if !is_write && g.faults_r && rng.coin(1, 8) { c.push(format!("fE:{}", tok)); }
     }
     for p in &parts { if p.st == PSt::Pending { c.push(format!("r{}:f", p.id)); c.push(format!("r{}:c{}", p.id, PRE)); } }
@@ -468,8 +491,8 @@ pub fn run_case(ctx: &mut Ctx, rng: &mut Rng, sock: &str, open: bool, cfg: SCfg,
                                 other => {
                                     if w.cfg.mpp == 0 { phase = Phase::Done; continue; }   // nothing is payable by configuration
                                     if other.is_some() || !held(&w).is_empty() {
-                                        let sig = if w.fault_read { "hang:after-read-fault" } else { "hang" };
-                                        ctx.violation("C06", sig, &format!("calls {:?} still unanswered after the environment answered everything and time passed REPLAY[{}]", held(&w).iter().map(|c| c.id).collect::<Vec<_>>(), replay(&w)));
+                                        let sig = if w.fault_read { format!("hang:read-fault:{}", w.fault_kind) } else { "hang".to_string() };
+                                        ctx.violation("C06", &sig, &format!("calls {:?} still unanswered after the environment answered everything and time passed REPLAY[{}]", held(&w).iter().map(|c| c.id).collect::<Vec<_>>(), replay(&w)));
                                         phase = Phase::Done; continue;
                                     }
                                     phase = Phase::Probe(0); phase_steps = 0; continue;
@@ -488,7 +511,7 @@ pub fn run_case(ctx: &mut Ctx, rng: &mut Rng, sock: &str, open: bool, cfg: SCfg,
                                     Some(r) if r.starts_with("res:") => { ctx.count("probe:settled"); phase = Phase::Done; continue; }
                                     Some(r) => {
                                         if round == 0 && r == "fail:2019" { ctx.count("probe:retry"); probe_call = None; phase = Phase::Probe(1); continue; }
-                                        let sig = if w.fault_read { "unpayable:after-read-fault" } else if g.lost { "unpayable:after-lost-write" } else { "unpayable" };
+                                        let sig = if w.fault_read { "unpayable:after-read-fault" } else { "unpayable" };
                                         ctx.violation("C09", sig, &format!("a fresh fully funded set with a cooperative recipient is answered {} (attempt {}) REPLAY[{}]", r, round + 1, replay(&w)));
                                         phase = Phase::Done; continue;
                                     }
